@@ -116,8 +116,8 @@ CHECKS["C07"] = {
     "assumptions": MUX_STUBS + ["preemption only at synchronisation points", "os.Create/Open/Remove and *os.File methods replaced by an in-harness POSIX-like file system"],
     "outside": ["wall-clock promptness", "OS-level removal semantics", "more than two pending requests"],
     "runs": [c07run("conc.close.ll", 3, 0, 2, 2), c07run("conc.close.fmp4.disk", 2, 1, 3, 3), c07run("conc.close.ts.disk", 1, 1, 2, 2),
-             dict(c07run("conc.close.ll.audio", 3, 0, 2, 2), params={"VARIANT": 3, "DISK": 0, "AUDIO": 1}),
-             dict(c07run("conc.close.fmp4.audio", 2, 0, 2, 2), params={"VARIANT": 2, "DISK": 0, "AUDIO": 1})] + [r for r in mux_runs() if "slide" in r["name"]],
+             dict(c07run("conc.close.ll.audio", 3, 0, 2, 2), params={"VARIANT": 3, "DISK": 0, "AUDIO": 1}, preempt_thorough=1),
+             dict(c07run("conc.close.fmp4.audio", 2, 0, 2, 2), params={"VARIANT": 2, "DISK": 0, "AUDIO": 1}, preempt_thorough=1)] + [r for r in mux_runs() if "slide" in r["name"]],
 }
 
 S = "storage/"
